@@ -9,6 +9,7 @@ import MafModel.Model.Sorter
 import MafModel.Model.Overlap
 import MafModel.Model.Header
 import MafModel.Model.Reader
+import MafModel.Model.Writer
 import MafModel.Generated.Enums
 import MafModel.Generated.ClassTable
 import MafModel.Generated.SchemeDefs
@@ -350,6 +351,53 @@ def dispatch (env : Env) (j : Json) : Json :=
         ("iter_exc", match err with | some e => Json.str (errName e) | none => Json.null),
         ("errors", errsJson r'.errors),
         ("logs", logsJson r'.logs)]
+  | some "writer.run" =>
+    let C := ctxOf env j
+    let K := hconsts
+    let R := registryOf (env.schemes.map (·.2))
+    let (h, _) := Header.fromLines K R (linesOf j "header_lines") (some .silent)
+    let outText (w : Writer) : Json := jtxt w.out.flatten
+    -- build a record from a specification
+    let clsOf (cj : Json) : String := (classOf env cj).getD "MafColumnRecord"
+    let mkRec (rj : Json) : Record :=
+      match rj.getObjVal? "parse" with
+      | .ok pj =>
+        let names : Option (List Text) := match pj.getObjVal? "names" with
+          | .ok (Json.arr a) => some (a.toList.filterMap (fun x => match x with | Json.str s => some (txt s) | _ => none))
+          | _ => none
+        match Record.fromLine C (txt ((getStr? pj "line").getD "")) names (schemeOf env pj) none (some .silent) with
+        | .ok (r, _) => r
+        | .error _ => {}
+      | .error _ =>
+        let cols := getArr rj "cols"
+        let (r, _) := cols.foldl (fun (acc : Record × Nat) cj =>
+          let (r, n) := acc
+          let col : Column := { cls := clsOf cj, key := txt ((getStr? cj "key").getD ""),
+                                value := valOfJson ((cj.getObjVal? "value").toOption.getD Json.null),
+                                index := getInt? cj "index" }
+          ((r.setItem (.name col.key) { oid := n, col := col }).1, n + 1)) (({} : Record), 0)
+        -- post-hoc mutations of stored column objects, addressed by construction order
+        (getArr rj "mut").foldl (fun (r : Record) mj =>
+          let oid := (getNat? mj "i").getD 0
+          let f (c : RCol) : RCol :=
+            if c.oid ≠ oid then c else
+            match getStr? mj "field" with
+            | some "value" => { c with col := { c.col with value := valOfJson ((mj.getObjVal? "to").toOption.getD Json.null) } }
+            | some "index" => { c with col := { c.col with index := getInt? mj "to" } }
+            | some "key" => { c with col := { c.col with key := txt ((getStr? mj "to").getD "") } }
+            | _ => c
+          { r with dict := r.dict.map (fun p => (p.1, f p.2)), slots := r.slots.map (fun s => s.map f) }) r
+    match Writer.init K R h (modeOf j) (getBool j "assume_sorted" true) with
+    | .error e => Json.mkObj [("init_exc", Json.str (errName e))]
+    | .ok w0 =>
+      let (_, steps) := (getArr j "ops").foldl (fun (acc : Writer × List Json) o =>
+        let (w, outs) := acc
+        let (w', res) : Writer × Except PyErr Unit :=
+          if (getStr? o "k") == some "close" then w.close C K
+          else w.write C K (mkRec ((o.getObjVal? "rec").toOption.getD Json.null))
+        (w', outs ++ [Json.mkObj [("exc", match res with | .ok () => Json.null | .error e => Json.str (errName e)),
+                                   ("out", outText w')]])) (w0, [])
+      Json.mkObj [("init_out", outText w0), ("steps", Json.arr steps.toArray)]
   | some "spec.domain" =>
     let S : Spec.SCtx := { enums := Generated.enums, H := floatHostOf j }
     let ty : Option Spec.ColType := match getStr? j "cls" with
